@@ -1,6 +1,6 @@
 (* C04: the printer of MiniJS gives exactly the chunks Model/JsGen.v emits:
    walking the node of a subset expression appends jprint (cgen scope e). *)
-From Soy Require Import Model.Bytes Model.Num Model.Values Model.Outcome Model.Ast Model.JsGen Model.MiniJS.
+From Soy Require Import Model.Bytes Model.Num Model.Values Model.Outcome Model.Ast Model.JsGen Model.MiniJS Generated.Tables.
 Open Scope N_scope.
 
 Definition st_out (st : jstate) (cs : list chunk) : jstate := upd_out (fun o => rev cs ++ o) st.
@@ -24,6 +24,10 @@ Proof. apply jemit_out. Qed.
 
 Lemma jbind_ok {A B} (m : J A) (f : A -> J B) st x st' : m st = Ok (x, st') -> jbind m f st = f x st'.
 Proof. intro H. unfold jbind. rewrite H. reflexivity. Qed.
+
+(* the loops in scope: every variable of [lv] has a loop frame in the generator's scope *)
+Definition lvok (lv : list bstr) (sc : list (list (bstr * bstr))) : Prop :=
+  forall x, existsb (bstr_eqb x) lv = true -> fst (jsc_loop sc x) <> [].
 
 Section Print.
 Variable o : jopts.
@@ -61,15 +65,16 @@ Qed.
 
 Ltac step_txt := erewrite jbind_ok; [|apply jtxt_out].
 Ltac step_emit := erewrite jbind_ok; [|apply jemit_out].
+Ltac use_ih H lv := apply (H lv); [lia|assumption|rewrite ?scope_out, ?scope_cur; assumption].
 
 (* cgen_print: the chunks JsGen writes for the node of e are jprint (cgen scope e) *)
-Theorem cgen_print e : forall fuel st, (cdepth e < fuel)%nat ->
+Theorem cgen_print e : forall lv fuel st, (cdepth e < fuel)%nat -> cwf lv e = true -> lvok lv (j_scope st) ->
   jwalk o fuel (cnode e) st = Ok (tt, st_after st (jprint (cgen (j_scope st) e))).
 Proof.
-  induction e as [| x | z | s | key accs | a IHa | a IHa | op a IHa c IHc | c IHc a IHa d IHd];
-    intros fuel st Hf; (destruct fuel as [|f]; [cbn in Hf; lia|]); cbn [cdepth] in Hf;
-    rewrite jwalk_S, cnode_flags; unfold st_after; rewrite <- (scope_cur st);
-    set (st1 := jset_cur None st); cbn [cnode jwalk_node cgen jprint].
+  induction e as [| x | z | s | key accs | a IHa | a IHa | op a IHa c IHc | c IHc a IHa d IHd | k x];
+    intros lv fuel st Hf Hwf Hlv; (destruct fuel as [|f]; [cbn in Hf; lia|]); cbn [cdepth] in Hf;
+    rewrite jwalk_S, cnode_flags; unfold st_after; rewrite <- (scope_cur st) in *;
+    set (st1 := jset_cur None st) in *; cbn [cnode jwalk_node cgen jprint]; cbn [cwf] in Hwf.
   - apply jtxt_out.
   - destruct x; apply jtxt_out.
   - apply jemit_out.
@@ -86,38 +91,55 @@ Proof.
     destruct (dataref_print (jwalk o f) accs r [] st1) as (pre & res & E & H). erewrite jbind_ok; [|exact E].
     rewrite jemit_out, st_out_out, H, app_nil_r. reflexivity.
   - (* neg *)
-    step_txt. erewrite jbind_ok; [|apply IHa; lia]. unfold st_after. rewrite set_cur_out. subst st1. rewrite set_cur_idem.
+    step_txt. erewrite jbind_ok; [|use_ih IHa lv]. unfold st_after. rewrite set_cur_out. subst st1. rewrite set_cur_idem.
     rewrite jtxt_out. rewrite !st_out_out, scope_out. reflexivity.
   - (* not *)
-    step_txt. erewrite jbind_ok; [|apply IHa; lia]. unfold st_after. rewrite set_cur_out. subst st1. rewrite set_cur_idem.
+    step_txt. erewrite jbind_ok; [|use_ih IHa lv]. unfold st_after. rewrite set_cur_out. subst st1. rewrite set_cur_idem.
     rewrite jtxt_out. rewrite !st_out_out, scope_out. reflexivity.
   - (* binary *)
+    apply andb_prop in Hwf. destruct Hwf as [Hwa Hwc].
     assert (Hop : forall sym, jop (jwalk o f) sym (cnode a) (cnode c) st1
                   = Ok (tt, st_out st1 ([CText t_op_open] ++ jprint (cgen (j_scope st1) a) ++ [CText t_op_mid1; CText sym; CText t_op_mid2]
                                         ++ jprint (cgen (j_scope st1) c) ++ [CText t_op_close]))).
-    { intro sym. unfold jop. step_txt. erewrite jbind_ok; [|apply IHa; lia]. unfold st_after. rewrite set_cur_out. subst st1. rewrite set_cur_idem.
-      step_emit. erewrite jbind_ok; [|apply IHc; lia]. unfold st_after. rewrite !set_cur_out, set_cur_idem.
+    { intro sym. unfold jop. step_txt. erewrite jbind_ok; [|use_ih IHa lv]. unfold st_after. rewrite set_cur_out. subst st1. rewrite set_cur_idem.
+      step_emit. erewrite jbind_ok; [|use_ih IHc lv]. unfold st_after. rewrite !set_cur_out, set_cur_idem.
       rewrite jtxt_out. rewrite !st_out_out, !scope_out. rewrite <- ?app_assoc. reflexivity. }
     destruct op; try (cbn [cgen_binop jprint jbin_sym binop_sym]; apply Hop).
     (* elvis *)
-    step_txt. erewrite jbind_ok; [|apply IHa; lia]. unfold st_after. rewrite set_cur_out. subst st1. rewrite set_cur_idem.
-    step_txt. erewrite jbind_ok; [|apply IHa; lia]. unfold st_after. rewrite !set_cur_out, set_cur_idem.
-    step_txt. erewrite jbind_ok; [|apply IHc; lia]. unfold st_after. rewrite !set_cur_out, set_cur_idem.
+    step_txt. erewrite jbind_ok; [|use_ih IHa lv]. unfold st_after. rewrite set_cur_out. subst st1. rewrite set_cur_idem.
+    step_txt. erewrite jbind_ok; [|use_ih IHa lv]. unfold st_after. rewrite !set_cur_out, set_cur_idem.
+    step_txt. erewrite jbind_ok; [|use_ih IHc lv]. unfold st_after. rewrite !set_cur_out, set_cur_idem.
     rewrite jtxt_out. rewrite !st_out_out, !scope_out. rewrite <- ?app_assoc. reflexivity.
   - (* ternary *)
-    step_txt. erewrite jbind_ok; [|apply IHc; lia]. unfold st_after. rewrite set_cur_out. subst st1. rewrite set_cur_idem.
-    step_txt. erewrite jbind_ok; [|apply IHa; lia]. unfold st_after. rewrite !set_cur_out, set_cur_idem.
-    step_txt. erewrite jbind_ok; [|apply IHd; lia]. unfold st_after. rewrite !set_cur_out, set_cur_idem.
+    apply andb_prop in Hwf. destruct Hwf as [Hwf Hwd]. apply andb_prop in Hwf. destruct Hwf as [Hwc Hwa].
+    step_txt. erewrite jbind_ok; [|use_ih IHc lv]. unfold st_after. rewrite set_cur_out. subst st1. rewrite set_cur_idem.
+    step_txt. erewrite jbind_ok; [|use_ih IHa lv]. unfold st_after. rewrite !set_cur_out, set_cur_idem.
+    step_txt. erewrite jbind_ok; [|use_ih IHd lv]. unfold st_after. rewrite !set_cur_out, set_cur_idem.
     rewrite jtxt_out. rewrite !st_out_out, !scope_out. rewrite <- ?app_assoc. reflexivity.
+  - (* loop function *)
+    unfold visit_function.
+    replace (assoc_s (cloop_name k) js_builtin_funcs) with (@None bstr) by (destruct k; vm_compute; reflexivity).
+    replace (assoc_s (cloop_name k) js_funcs) with (@None (list N * list (option nat * list (bstr + nat)))) by (destruct k; vm_compute; reflexivity).
+    replace (bstr_eqb (cloop_name k) jn_isFirst || bstr_eqb (cloop_name k) jn_isLast || bstr_eqb (cloop_name k) jn_index) with true
+      by (destruct k; reflexivity).
+    erewrite jbind_ok; [|reflexivity]. cbn [loop_var_of].
+    specialize (Hlv x Hwf). destruct (jsc_loop (j_scope st1) x) as [ix lim]. cbn [fst] in Hlv.
+    destruct ix as [|c0 ix]; [congruence|].
+    destruct k.
+    + replace (bstr_eqb (cloop_name LIndex) jn_isFirst) with false by reflexivity.
+      replace (bstr_eqb (cloop_name LIndex) jn_isLast) with false by reflexivity. apply jemit_out.
+    + replace (bstr_eqb (cloop_name LIsFirst) jn_isFirst) with true by reflexivity. apply jemit_out.
+    + replace (bstr_eqb (cloop_name LIsLast) jn_isFirst) with false by reflexivity.
+      replace (bstr_eqb (cloop_name LIsLast) jn_isLast) with true by reflexivity. apply jemit_out.
 Qed.
 
 (* the statement {print e} under autoescape off: out += <expression>; *)
-Theorem cgen_print_stmt e fuel st : j_auto st = 2 -> (S (cdepth e) < fuel)%nat ->
+Theorem cgen_print_stmt e lv fuel st : j_auto st = 2 -> (S (cdepth e) < fuel)%nat -> cwf lv e = true -> lvok lv (j_scope st) ->
   jwalk o fuel (NPrint 0 (cnode e) []) st
   = Ok (tt, st_after st ([CText (indent_text (j_indent st)); CName (j_buf st); CText t_pluseq]
                          ++ jprint (cgen (j_scope st) e) ++ [CText t_semi_nl])).
 Proof.
-  intros Ha Hf. destruct fuel as [|f]; [lia|]. rewrite jwalk_S. cbn [soydoc_flags].
+  intros Ha Hf Hwf Hlv. destruct fuel as [|f]; [lia|]. rewrite jwalk_S. cbn [soydoc_flags].
   unfold st_after. set (st1 := jset_cur None st).
   assert (H1 : j_auto st1 = 2 /\ j_indent st1 = j_indent st /\ j_buf st1 = j_buf st /\ j_scope st1 = j_scope st) by (subst st1; destruct st; cbn in *; auto).
   destruct H1 as (A1 & I1 & B1 & S1). rewrite <- I1, <- B1, <- S1.
@@ -127,7 +149,7 @@ Proof.
   unfold jindent. erewrite jbind_ok; [|erewrite jbind_ok; [apply jtxt_out|reflexivity]].
   unfold bufname. erewrite jbind_ok; [|erewrite jbind_ok; [reflexivity|reflexivity]].
   erewrite jbind_ok; [|apply jemit_out]. cbn [rev print_opens]. erewrite jbind_ok; [|reflexivity].
-  erewrite jbind_ok; [|apply cgen_print; lia]. cbn [print_closes]. erewrite jbind_ok; [|reflexivity].
+  erewrite jbind_ok; [|apply (cgen_print e lv); [lia|exact Hwf|rewrite ?scope_out; subst st1; rewrite scope_cur; exact Hlv]]. cbn [print_closes]. erewrite jbind_ok; [|reflexivity].
   rewrite jtxt_out. unfold st_after. rewrite !set_cur_out. subst st1. rewrite set_cur_idem.
   rewrite !st_out_out, !scope_out. cbn [app]. rewrite <- ?app_assoc. cbn [app].
   destruct st; reflexivity.
